@@ -439,6 +439,11 @@ class SparseDrugComboInteraction(BayesianModel, MCMCModel):
                 "received a {} treatment dataset".format(data.treatment_arity)
             )
 
+        if not (data.observations >= 0.0).all():
+            raise ValueError(
+                "Observations should be non-negative and not NaN, please check input data"
+            )
+
         self.single_effect_lookup.update(
             create_single_treatment_effect_map(
                 sample_ids=data.sample_ids,
